@@ -95,8 +95,23 @@ pub struct Prog {
 /// value size that marks a synchronous put in thread programs
 pub const SYNC_SIZE: u32 = 9;
 
+/// values of exactly this size are incompressible
+pub const INCOMPRESSIBLE_SIZE: u32 = 351;
+
 pub fn val(id: u16, size: u32) -> Vec<u8> {
     let base = format!("val{:05}", id).into_bytes();
+    if size == INCOMPRESSIBLE_SIZE {
+        // bytes that the block compression cannot shrink: the table really grows by this much
+        let mut v = base.clone();
+        let mut x: u64 = 0x9E37_79B9_7F4A_7C15 ^ ((id as u64) << 20);
+        while v.len() < size as usize {
+            x ^= x << 13;
+            x ^= x >> 7;
+            x ^= x << 17;
+            v.push((x >> 24) as u8);
+        }
+        return v;
+    }
     let mut v = Vec::with_capacity(size.max(8) as usize);
     let mut i = 0usize;
     while v.len() < size.max(8) as usize {
